@@ -6,6 +6,7 @@ use apollo_compiler::executable::Field;
 use apollo_compiler::executable::Selection;
 use apollo_compiler::executable::SelectionSet;
 use apollo_compiler::schema::ExtendedType;
+use apollo_compiler::schema::Type;
 use apollo_compiler::validation::Valid;
 use apollo_compiler::ExecutableDocument;
 use apollo_compiler::Name;
@@ -314,7 +315,6 @@ impl<'a, 'doc, 'schema, R: RandomProvider> ResponseBuilder<'a, 'doc, 'schema, R>
         meta_field: &Node<Field>,
     ) -> Result<Value, ResponseError> {
         let has_selection_set = !meta_field.selection_set.is_empty();
-        let is_list = meta_field.ty().is_list();
 
         if has_selection_set {
             // Merge sub-selections from all occurrences of this field
@@ -326,29 +326,33 @@ impl<'a, 'doc, 'schema, R: RandomProvider> ResponseBuilder<'a, 'doc, 'schema, R>
                 ty: meta_field.selection_set.ty.clone(),
                 selections: merged_selections,
             };
-
-            if is_list {
-                self.repeated_selection_set(&full_selection_set)
-            } else {
-                self.selection_set(&full_selection_set)
-            }
-        } else if is_list {
-            self.repeated_leaf_field(meta_field.ty().inner_named_type())
+            self.list_layers(meta_field.ty(), &mut |builder| {
+                builder.selection_set(&full_selection_set)
+            })
         } else {
-            self.leaf_field(meta_field.ty().inner_named_type())
+            let type_name = meta_field.ty().inner_named_type();
+            self.list_layers(meta_field.ty(), &mut |builder| builder.leaf_field(type_name))
         }
     }
 
-    fn repeated_selection_set(
+    /// Wrap the values produced by `item` in one list per list layer of `ty`,
+    /// so that `[[Int!]]` is a list of lists. Each list gets its own arbitrary length.
+    fn list_layers(
         &mut self,
-        selection_set: &SelectionSet,
+        ty: &Type,
+        item: &mut dyn FnMut(&mut Self) -> Result<Value, ResponseError>,
     ) -> Result<Value, ResponseError> {
-        let num_values = self.arbitrary_len()?;
-        let mut values = Vec::with_capacity(num_values);
-        for _ in 0..num_values {
-            values.push(self.selection_set(selection_set)?);
+        match ty {
+            Type::List(inner) | Type::NonNullList(inner) => {
+                let num_values = self.arbitrary_len()?;
+                let mut values = Vec::with_capacity(num_values);
+                for _ in 0..num_values {
+                    values.push(self.list_layers(inner, item)?);
+                }
+                Ok(Value::Array(values))
+            }
+            Type::Named(_) | Type::NonNullNamed(_) => item(self),
         }
-        Ok(Value::Array(values))
     }
 
     /// Like [`selection_set`][Self::selection_set], but with a fixed concrete type and an
@@ -461,15 +465,6 @@ impl<'a, 'doc, 'schema, R: RandomProvider> ResponseBuilder<'a, 'doc, 'schema, R>
             ExtendedType::Scalar(scalar) => self.generators.generate_scalar(&scalar.name, self.rng),
             _ => unreachable!("A field with an empty selection set must be a scalar or enum type"),
         }
-    }
-
-    fn repeated_leaf_field(&mut self, type_name: &Name) -> Result<Value, ResponseError> {
-        let num_values = self.arbitrary_len()?;
-        let mut values = Vec::with_capacity(num_values);
-        for _ in 0..num_values {
-            values.push(self.leaf_field(type_name)?);
-        }
-        Ok(Value::Array(values))
     }
 
     fn arbitrary_len(&mut self) -> Result<usize, ResponseError> {
